@@ -302,12 +302,14 @@ impl World {
                 let m: &acts::Message = e;
                 let seq = vsim::bump_seq();
                 let gen = vsim::id_seq(&m.id);
+                let gen_activity = vsim::id_activity(&m.id);
                 let r = MsgRec {
                     seq,
                     chan: label.clone(),
                     via: via.to_string(),
                     id: m.id.clone(),
                     gen,
+                    gen_activity,
                     pid: m.pid.clone(),
                     tid: m.tid.clone(),
                     nid: m.nid.clone(),
@@ -846,6 +848,7 @@ pub fn react(engine: &Engine, rec: &Rec, client: &ClientSpec, oa: &OpenAct, at_q
 #[allow(clippy::too_many_arguments)]
 pub fn do_action(engine: &Engine, rec: &Rec, pid: &str, tid: &str, action: &str, options: &Map<String, Value>, key: &str, by: &str, at_q: bool) -> bool {
     let seq0 = vsim::bump_seq();
+    vsim::next_activity();
     let vars: Vars = Value::Object(options.clone()).into();
     let ex = engine.executor();
     let a = ex.act();
